@@ -62,7 +62,7 @@ class Creators:
       key = gfa_line.name
       if gfapy.is_placeholder(key):
         key = id(gfa_line)
-      elif key.isascii() and key.isdigit():
+      elif isinstance(key, str) and key.isascii() and key.isdigit():
         keynum = int(key)
         if keynum > self._max_int_name:
           self._max_int_name = keynum
